@@ -53,7 +53,11 @@ class Sequential(_module_list.ModuleList):
         with the parent name, Sequential keeps children with simple index
         names because ``__call__`` already pushes the Sequential's own name.
         """
-        if module._name is None:  # pylint: disable=protected-access
+        # A child of a container is always addressed by its index (as _set_name does when
+        # the container is attached), also when it carries a name of its own.
+        if self._name is not None:
+            module._set_name(key)  # pylint: disable=protected-access
+        elif module._name is None:  # pylint: disable=protected-access
             object.__setattr__(module, "_name", key)
         self._modules[key] = module
         object.__setattr__(self, key, module)
